@@ -102,9 +102,12 @@ def generate(rng, quick):
                 body += b"\n"
         else:
             body = gen_body(rng)
-        trunc = rng.random() < 0.06 and status not in (204, 304)
+        trunc = rng.random() < 0.12 and status not in (204, 304)
         oneway = 1 if rng.random() < 0.1 else 0
         q = {"rx": "hc_resp", "status": status, "body": body.hex(), "trunc": trunc, "n": oneway}
+        if trunc and rng.random() < 0.6:
+            # the announced Content-Length is far beyond what is delivered (and beyond any buffer one could allocate)
+            q["over"] = str(rng.choice([1 << 20, 1 << 31, (1 << 32) + 5, 1 << 40, 1 << 62, (1 << 63) - 1 - len(body)]))
         items.append((q, {"kind": "resp", "status": status, "body": body, "trunc": trunc, "oneway": oneway}))
         if oneway:      # the same response through Request, to compare
             q2 = dict(q, n=0)
